@@ -51,7 +51,7 @@ Print Assumptions query_values.
 
 Example history_independence_nonvacuous :
   let w := run fixed (init_world 2 false 0)
-             [(0, OGradient); (0, OJtvec 1); (0, OExport VCopy DResults); (1, OSetModel 1 false);
+             [(0, OGradient); (0, OJtvec 1); (0, OExport VCopy DResults); (1, OSetModel 1 false false);
               (1, OJvec 0); (0, OClean CKeep)] in
   length (w_sims w) = 2 /\
   ask fixed w 0 QGradient = (RVal (Grad 0), []) /\
@@ -89,9 +89,31 @@ Theorem tol_always_set_before_use : forall q w ko,
 Proof. exact tol_always_proof. Qed.
 Print Assumptions tol_always_set_before_use.
 
+(* --- every solve issued by an operation on simulation k is handed the model
+       version simulation k has when the operation is called (any mode, any
+       variant): no solve ever runs with a stale model, in particular not after
+       a model update (in place or by replacement) followed by clean *)
+Theorem solves_use_current_model : forall q w k o s, nth_error (w_sims w) k = Some s ->
+  Forall (fun so => so_model so = s_model s) (o_trace (snd (step q w (k, o)))).
+Proof. exact solves_model_proof. Qed.
+Print Assumptions solves_use_current_model.
+
+Theorem setmodel_sets_version : forall q w k m all repl s,
+  nth_error (w_sims w) k = Some s ->
+  exists s', nth_error (w_sims (fst (step q w (k, OSetModel m all repl)))) k = Some s' /\ s_model s' = m.
+Proof. exact setmodel_sets_version. Qed.
+Print Assumptions setmodel_sets_version.
+
+Example solves_after_update_use_new_model :
+  let w := run fixed (init_world 2 false 0) [(0, OCompute); (0, OSetModel 1 false true)] in
+  map so_model (o_trace (snd (step fixed w (0, OGradient)))) = [1; 1; 1; 1]
+  /\ ask fixed w 0 QSynthetic = (RNone, [Syn 1 0; Syn 1 1]).
+Proof. exact ex_solves_after_update. Qed.
+Print Assumptions solves_after_update_use_new_model.
+
 Example tol_trace_nonempty :
   o_trace (snd (step fixed (init_world 2 false 0) (0, OGradient))) =
-  [mkSolve KF 0 TFwd false; mkSolve KF 1 TFwd false; mkSolve KB 0 TGrad false; mkSolve KB 1 TGrad false].
+  [mkSolve KF 0 TFwd false 0; mkSolve KF 1 TFwd false 0; mkSolve KB 0 TGrad false 0; mkSolve KB 1 TGrad false 0].
 Proof. exact ex_trace_nonempty. Qed.
 Print Assumptions tol_trace_nonempty.
 
@@ -148,7 +170,7 @@ Print Assumptions keepresults_quirk_refuted.
    is NOT proved (gap; covered by the correspondence only). *)
 Theorem copies_independent_file_refuted :
   ask fixed (run fixed (init_world 2 true 0)
-                 [(0, OCompute); (0, OExport VCopy DComputed); (1, OSetModel 1 false); (1, OCompute)])
+                 [(0, OCompute); (0, OExport VCopy DComputed); (1, OSetModel 1 false false); (1, OCompute)])
       0 QGradient
   <> ask fixed (init_world 2 true 0) 0 QGradient.
 Proof. exact refuted_file_copy. Qed.
